@@ -1,7 +1,7 @@
 /* C13 (a): search lands on the first match after / last match before the cursor, no wrap (real lbuf_search) */
 #include "nvenv.h"
 #include "vi.h"
-#include "refre_build.h"
+#include "refsearch.h"
 
 extern int nv_re_depthhit;
 extern int xic;
@@ -19,37 +19,6 @@ static const char *pcodes[] = {
 #define NPC ((int) (sizeof(pcodes) / sizeof(pcodes[0])))
 static const char *lalpha[] = {"a", "b", " ", "\xc3\xa9"};
 #define NLA 4
-
-struct rline { char s[24]; struct rr_subj sj; };
-
-/* successive matches of the reference on one line; returns the number, fills starts/ends (position indices) */
-static int successive(const struct rr_ast *a, struct rr_subj *sj, int lost, int *st, int *en, int max)
-{
-	int g[RR_MAXGRP * 2], n = 0, pos = 0, i;
-	int ng = 1;
-	while (pos < sj->np && n < max) {
-		int sp, ep;
-		sj->q = lost ? pos : 0;
-		if (!rr_first_from(a, sj, pos, g, ng))
-			break;
-		for (sp = 0; sj->off[sp] < g[0]; sp++)
-			;
-		for (ep = sp; sj->off[ep] < g[1]; ep++)
-			;
-		if (sp >= sj->np - 1)		/* nothing begins after the terminator */
-			break;
-		st[n] = sp;
-		en[n] = ep;
-		n++;
-		pos = ep > sp ? ep : ep + 1;
-		/* the scan of a line is not resumed at or after its terminator */
-		if (pos >= sj->np - 2)
-			break;
-	}
-	sj->q = 0;
-	(void) i;
-	return n;
-}
 
 static long n_search, n_found;
 
@@ -69,42 +38,8 @@ static void check_buffer(const struct rr_ast *a, const char *pat, struct rline *
 				ret = lbuf_search(lb, (char *) pat, dir, &r, &o, &len);
 				n_search++;
 				for (lost = 0; lost < 2; lost++) {
-					int fr = -1, fo = -1, fl = -1;
-					if (dir > 0) {
-						int g[4];
-						struct rr_subj *sj = &ln[r0].sj;
-						sj->q = lost ? o0 + 1 : 0;
-						if (o0 + 1 < sj->np && rr_first_from(a, sj, o0 + 1, g, 1)) {
-							int sp, ep;
-							for (sp = 0; sj->off[sp] < g[0]; sp++)
-								;
-							for (ep = sp; sj->off[ep] < g[1]; ep++)
-								;
-							if (sp < sj->np - 1) {
-								fr = r0; fo = sp; fl = ep - sp;
-							}
-						}
-						sj->q = 0;
-						for (i = r0 + 1; fr < 0 && i < nl; i++) {
-							int st[16], en[16];
-							if (successive(a, &ln[i].sj, lost, st, en, 1) > 0) {
-								fr = i; fo = st[0]; fl = en[0] - st[0];
-							}
-						}
-					} else {
-						int st[16], en[16], n, k;
-						n = successive(a, &ln[r0].sj, lost, st, en, 16);
-						for (k = 0; k < n; k++)
-							if (st[k] < o0) {
-								fr = r0; fo = st[k]; fl = en[k] - st[k];
-							}
-						for (i = r0 - 1; fr < 0 && i >= 0; i--) {
-							n = successive(a, &ln[i].sj, lost, st, en, 16);
-							if (n > 0) {
-								fr = i; fo = st[n - 1]; fl = en[n - 1] - st[n - 1];
-							}
-						}
-					}
+					int fr, fo, fl;
+					rs_search(a, ln, nl, r0, o0, dir, lost, &fr, &fo, &fl);
 					if (!lost) {
 						er = fr; eo = fo; elen = fl;
 					} else {
